@@ -188,8 +188,8 @@ def m_vec_extend_from_slice(E, st, fr, bi, callee, args, dest_ty):
         heads = {i: s.head[i] for i in range(ls)}
         for i in range(lo):
             heads[ls + i] = o.head[i]
-    elif ls is not None and s.head and len(s.head) == ls and ls <= 64:
-        heads = dict(s.head)              # the prefix stays distinguished
+    elif s.head:
+        heads = dict(s.head)              # distinguished elements of the prefix keep their positions
     es = E._flat_elem(st, s) if st.hi(s.len) > 0 else None
     eo = E._flat_elem(st, o) if st.hi(o.len) > 0 else None
     if es is None or (type(es) is Bot):
@@ -335,6 +335,42 @@ def m_split_at(E, st, fr, bi, callee, args, dest_ty):
     st.store[k1] = Sq(s.elem, mid, h1, None)
     st.store[k2] = Sq(s.elem, rest, h2, None)
     return ret1(Ag((Pt(k1), Pt(k2))), st)
+
+
+def m_slice_ends(kind):
+    """<[T]>::first / last / split_first / split_last as immutable views (None when the slice may be empty)"""
+    def f(E, st, fr, bi, callee, args, dest_ty):
+        p = args[0]
+        s = as_seq(E, st, p)
+        usz = E.ctx.usize_ty()
+        lo, hi = st.itv[s.len.vid]
+        vs = {}
+        if lo == 0:
+            vs[NONE] = ()
+        if hi > 0:
+            n = st.const(s.len)
+            flat = E._flat_elem(st, s)
+            if kind in ("first", "split_first"):
+                one = s.head[0] if s.head and 0 in s.head else flat
+            else:
+                one = s.head[n - 1] if (n is not None and s.head and (n - 1) in s.head) else flat
+            k1 = ("h", kind, fr.id, bi, 0)
+            st.store[k1] = one
+            if kind in ("first", "last"):
+                vs[SOME] = (Pt(k1),)
+            else:
+                rest_len = E.ctx.mk_int(st, max(lo - 1, 0), hi - 1 if hi != INF else ISIZE_MAX, usz)
+                st.add_fact(rest_len.vid, s.len.vid, -1)
+                st.add_fact(s.len.vid, rest_len.vid, 1)
+                heads = None
+                if s.head and n is not None:
+                    heads = ({k - 1: v for k, v in s.head.items() if k >= 1} if kind == "split_first" else {k: v for k, v in s.head.items() if k < n - 1}) or None
+                k2 = ("h", kind, fr.id, bi, 1)
+                st.store[k2] = Sq(s.elem, rest_len, heads, None)
+                vs[SOME] = (Ag((Pt(k1), Pt(k2))),)
+        return ret1(En(vs), st)
+    f.__name__ = f"m_slice_{kind}"
+    return f
 
 
 def m_try_from_slice_array(E, st, fr, bi, callee, args, dest_ty):
@@ -1171,6 +1207,100 @@ def m_iter_sum(E, st, fr, bi, callee, args, dest_ty):
     return ret1(z, st)
 
 
+
+def m_iter_fold(E, st, fr, bi, callee, args, dest_ty):
+    """Iterator::fold(init, f) / for_each(f): exact when the iterator has a small constant length (each step is one closure
+    call, in order); otherwise not modelled (the caller falls back to the unknown-call treatment)"""
+    it = iter_arg(E, st, args[0])
+    is_for_each = "::for_each::<" in callee.name
+    fn_arg = args[1] if is_for_each else args[2]
+    fty = None
+    for t in fn_generic_types(callee):
+        if E.prog.ty(t).tag in ("Closure", "FnDef", "FnPtr"):
+            fty = t
+    if fty is None:
+        return None
+    n = it_len(E, st, it)
+    c = st.const(n)
+    if c is None or c > max(64, E.ctx.hooks.get("exact_collect_max", 64)):
+        return None
+    states = [((UNIT if is_for_each else args[1]), it, st)]
+    with pinned(E.ctx, n, it, fn_arg):
+        for _ in range(c):
+            nxt = []
+            for acc, cur, s in states:
+                with pinned(E.ctx, acc, cur):
+                    outs = [o for o in it_next(E, s, fr, bi, cur) if o[0] is not None]
+                for item, cur2, s2 in outs:
+                    with pinned(E.ctx, acc, cur2, item):
+                        rs = call_closure(E, s2, fr, bi, fn_arg, fty, [item] if is_for_each else [acc, item])
+                    for r, s3 in rs:
+                        nxt.append((UNIT if is_for_each else r, cur2, s3))
+            states = nxt
+            if len(states) > 8:
+                raise Unsupported("fold: too many outcomes")
+    return [(acc, s) for acc, _, s in states]
+
+
+def m_array_from_fn(E, st, fr, bi, callee, args, dest_ty):
+    """core::array::from_fn::<T, N, F>(f): [f(0), .., f(N-1)]"""
+    from .absint import array_len
+    t = E.prog.ty(dest_ty)
+    if t.tag != "Array":
+        return None
+    n = array_len(t)
+    if n is None or n > 64:
+        return None
+    fty = None
+    for g in fn_generic_types(callee):
+        if E.prog.ty(g).tag in ("Closure", "FnDef", "FnPtr"):
+            fty = g
+    if fty is None:
+        return None
+    usz = E.ctx.usize_ty()
+    states = [([], st)]
+    for i in range(n):
+        nxt = []
+        for acc, s in states:
+            with pinned(E.ctx, args[0], *acc):
+                for r, s2 in call_closure(E, s, fr, bi, args[0], fty, [E.ctx.const_int(s, i, usz)]):
+                    nxt.append((acc + [r], s2))
+        states = nxt
+        if len(states) > 8:
+            raise Unsupported("from_fn: too many outcomes")
+    outs = []
+    for acc, s in states:
+        elem = None
+        for x in acc:
+            elem = x if elem is None else E.join_vals(s, elem, x)
+        outs.append((Sq(elem if elem is not None else BOT, E.ctx.const_int(s, n, usz), {i: x for i, x in enumerate(acc)}, None), s))
+    return outs
+
+
+def m_vec_pop(E, st, fr, bi, callee, args, dest_ty):
+    p = args[0]
+    s = as_seq(E, st, p)
+    lo, hi = st.itv[s.len.vid]
+    usz = E.ctx.usize_ty()
+    outs = []
+    n = st.const(s.len)
+    if hi > 0:
+        s2 = st.copy() if lo == 0 else st
+        if n is not None and s.head and len(s.head) == n:
+            item = s.head[n - 1]
+            new = Sq(s.elem, E.ctx.const_int(s2, n - 1, usz), {k: v for k, v in s.head.items() if k < n - 1} or None, None)
+        else:
+            item = E._flat_elem(s2, s)
+            nl = E.ctx.mk_int(s2, max(lo - 1, 0), hi - 1 if hi != INF else ISIZE_MAX, usz)
+            s2.add_fact(nl.vid, s.len.vid, -1)
+            new = Sq(s.elem, nl, None, None)
+        write_through(E, s2, p, new)
+        outs.append((En({SOME: (item,)}), s2))
+    if lo == 0:
+        outs.append((En({NONE: ()}), st))
+    return outs
+
+
 def m_iter_count(E, st, fr, bi, callee, args, dest_ty):
     it = iter_arg(E, st, args[0])
     if it.d["k"] == "filter":
@@ -1447,6 +1577,17 @@ def m_int_arith(kind, op):
         tt = (tl(st, a.vid) or EMPTY) | (tl(st, b.vid) or EMPTY)
         if kind == "saturating":
             return ret1(E.ctx.mk_int(st, max(tlo, min(thi, lo)), max(tlo, min(thi, hi)), ity, taint=tt or False), st)
+        if op == "Sub" and tlo == 0 and lo < 0 <= hi:
+            # unsigned checked_sub that may or may not underflow: one outcome per case, each with the operands refined
+            outs = []
+            for some in (True, False):
+                s2 = st.copy()
+                try:
+                    E.assume_cmp(s2, "Ge" if some else "Lt", a.vid, b.vid)
+                except Diverge:
+                    continue
+                outs.append((En({SOME: (E.binop(s2, "Sub", a, b, ity, False),)}) if some else En({NONE: ()}), s2))
+            return outs
         vs = {}
         if hi >= tlo and lo <= thi:
             if tlo <= lo and hi <= thi:
@@ -1458,6 +1599,27 @@ def m_int_arith(kind, op):
         return ret1(En(vs), st)
     f.__name__ = f"m_{kind}_{op}"
     return f
+
+
+def m_option_eq(E, st, fr, bi, callee, args, dest_ty):
+    """<Option<T> as PartialEq>::eq / ne for scalar T"""
+    a, b = deref2(E, st, args[0]), deref2(E, st, args[1])
+    ne = callee.name.endswith("::ne")
+    if type(a) is not En or type(b) is not En:
+        return None
+    r = None
+    ka, kb = set(a.vs), set(b.vs)
+    if not (ka & kb):
+        r = False
+    elif ka == kb and len(ka) == 1:
+        k = next(iter(ka))
+        if not a.vs[k]:
+            r = True
+        elif len(a.vs[k]) == 1 and type(a.vs[k][0]) is I and type(b.vs[k][0]) is I:
+            r = E.decide_cmp(st, "Eq", a.vs[k][0], b.vs[k][0])
+    if r is not None and ne:
+        r = not r
+    return ret1(E.mkbool(st, None if r is None else int(r)), st)
 
 
 def m_int_abs(E, st, fr, bi, callee, args, dest_ty):
@@ -1791,6 +1953,8 @@ def build(ctx):
     A(r"^<bit_vec::Iter<.*> as std::iter::Iterator>::next$", m_iter_next)
     A(r"^core::slice::<impl \[.*\]>::chunks$", m_slice_chunks)
     A(r"^(core|std)::slice::<impl \[.*\]>::split_at$", m_split_at)
+    for _k in ("first", "last", "split_first", "split_last"):
+        A(rf"^(core|std)::slice::<impl \[.*\]>::{_k}$", m_slice_ends(_k))
     A(r"^<.* as itertools::Itertools>::chunks$", m_iter_adapt("chunks"))
     A(r"^itertools::Itertools::chunks$", m_iter_adapt("chunks"))
     A(r"^<&itertools::IntoChunks<.*> as std::iter::IntoIterator>::into_iter$", m_deref_model)
@@ -1803,6 +1967,10 @@ def build(ctx):
         A(r"^std::iter::Iterator::" + k + r"(::<.*>)?$", m_iter_adapt(k))
     A(r"^<.* as std::iter::Iterator>::sum::<", m_iter_sum)
     A(r"^std::iter::Iterator::sum::<", m_iter_sum)
+    A(r"^<.* as std::iter::Iterator>::(fold|for_each)::<", m_iter_fold)
+    A(r"^std::iter::Iterator::(fold|for_each)::<", m_iter_fold)
+    A(r"^(core|std)::array::from_fn::<", m_array_from_fn)
+    A(r"^std::vec::Vec::<.*>::pop$", m_vec_pop)
     A(r"^<.* as std::iter::Iterator>::count$", m_iter_count)
     A(r"^std::iter::Iterator::count$", m_iter_count)
     A(r"^<.* as std::iter::Iterator>::collect::<", m_collect)
@@ -1862,6 +2030,7 @@ def build(ctx):
     A(r"^<.*Shake256ReaderCore> as sha3::digest::XofReader>::read$", m_xof_read)
     A(r"^std::boxed::Box::<\[.*\]>::new_uninit$", m_box_new_uninit)
     A(r"^std::boxed::Box::<.*>::new$", m_box_new)
+    A(r"^<std::option::Option<(bool|[iu]\d+|usize|isize)> as std::cmp::PartialEq>::(eq|ne)$", m_option_eq)
     A(r"^std::boxed::box_assume_init_into_vec_unsafe::<", m_box_into_vec)
     A(r"^(core|std)::array::<impl \[.*\]>::map::<", m_array_map)
     A(r"^<.* as (core|std)::array::SpecArrayClone>::clone::<", m_array_clone)
